@@ -378,9 +378,10 @@ Definition op_ok (s : pstate) (o : op) : bool :=
           | None => false
           end)
       && ends_ok (p_offset s + p_cur_w s) (rev nodes)
-  | OUnglue orig _ _ a b =>
+  | OUnglue orig k1 k2 a b =>
       negb (tkind_eqb (peek_kind s) orig)
-      || (str_eqb (t_text (peek_term s)) (a ++ b) && negb (is_eof orig))
+      || (str_eqb (t_text (peek_term s)) (a ++ b) && negb (is_eof orig) && negb (is_eof k1)
+          && negb (is_eof k2))
   | OTakeDoc => true
   | OMissing _ => true
   end.
